@@ -4,7 +4,7 @@
    (tokenizer model exhaustively on short strings, grammar-derived descriptions with an independent denotation). *)
 From Coq Require Import String.
 From CP Require Import Model.Base Generated.Consts Model.Ranges Model.Lex Model.RangeParse Model.Dec Model.DecRange Proofs.RangeProofs
-  Proofs.RangeParseProofs.
+  Proofs.RangeParseProofs Proofs.RangeTextProofs.
 Local Open Scope Z_scope.
 
 (* a value is accepted iff it lies inside at least one item, both limits inclusive, an omitted limit = unbounded *)
@@ -53,6 +53,18 @@ Proof. exact token_loop_denotes. Qed.
 Theorem reversed_item_is_refused : forall l1 s l2 a b rest items, is_sep s = true -> lim_value l1 = Some a -> lim_value l2 = Some b -> b < a ->
   parse_items (gitem_tokens (GClosed l1 s l2) ++ eof_tok :: rest) istate0 items = PInterface.
 Proof. exact token_loop_refuses_reversed. Qed.
+
+(* from text to items, through the ellipsis pre-processing, the tokenizer model and the token loop, for every description
+   written with decimal integers: any number of items separated by ", ", each a number, a...b, a... or ...b with any of the
+   three separator spellings, numbers of any size and sign - Range(text) has exactly the items the text denotes ... *)
+Theorem written_description_parses_to_its_items : forall d, d <> [] -> Forall sitem_ordered d -> no_overlap [] (map sitem_den d) ->
+  range_of_text (desc_text sep_text d) = POk (Some (map sitem_den d)).
+Proof. exact range_of_written_description. Qed.
+(* ... and therefore accepts exactly the values inside one of the items (limits inclusive, an omitted limit unbounded) *)
+Theorem written_description_accepts_exactly_what_it_describes : forall d v, d <> [] -> Forall sitem_ordered d -> no_overlap [] (map sitem_den d) ->
+  exists r, range_of_text (desc_text sep_text d) = POk r /\
+            (range_validate r v = true <-> exists it, In it d /\ inside (sitem_den it) v).
+Proof. exact written_description_accepts_exactly. Qed.
 
 (* non-vacuity of the grammar: the tokenizer model splits a description with every kind of limit spelling into exactly
    the token sequence of a grammar description, whose items have the expected denotations *)
